@@ -784,7 +784,7 @@ family_chunked(void)
     free(wb);
 }
 
-/* ---- family: huge (lengths straddling 2^31 .. 2^34) ------------------------ */
+/* ---- family: huge (lengths straddling 2^31 .. 2^35) ------------------------ */
 
 /* One library call over several GiB takes longer than the runtime's 20 s
  * no-progress watchdog allows: give the case in flight a budget of its own. */
@@ -873,7 +873,9 @@ huge_case(const struct hugecase *h)
     want = ref_buf(want, tail, HUGE_TAIL);
     /* the table-driven code does 3..4 s per GiB under ASan, a correct bit-serial one about 10: leave room for
      * slow-but-right code on a busy machine; a real hang in the quick tier is still reported inside its deadline */
-    const int budget = mc_thorough() ? 120 + 60 * (int)(no >> 30) : 150;
+    int budget = mc_thorough() ? 120 + 60 * (int)(no >> 30) : 150;
+    if (budget > 1200)
+        budget = 1200; /* stay inside the tier's global deadline */
     /* How fast is this implementation, now, on this machine?  One call of the same variant over 64 MiB of the
      * zero region (measured once per process and variant).  A case whose projected duration does not fit its
      * budget with a margin of one half is not run: a correct but slow checksum is a cap, never a `hang`. */
@@ -917,7 +919,9 @@ family_huge(void)
         { false, false, 31, +5 },
     };
     static const struct hugecase thorough[] = {
-        /* longest first, so that they land on different shards */
+        /* longest first, so that they land on different shards.  2^35: where a 32-bit count of 8-octet rounds
+         * wraps (2^34 covers 4-octet rounds, 2^32 single octets); about 2 min under ASan for table-driven code */
+        { false, false, 35, +5 }, { false, false, 35, 0 },
         { true, false, 32, +5 },  { true, false, 32, 0 },   { false, false, 34, +5 }, { false, false, 34, 0 },
         { false, false, 33, +5 }, { false, false, 33, 0 },  { true, false, 31, +5 },  { true, false, 31, 0 },
         { true, true, 31, +5 },   { false, false, 32, +5 }, { false, false, 32, +1 }, { false, false, 32, 0 },
@@ -957,7 +961,7 @@ main(int argc, char **argv)
           "zero buffers of every length 1..160 with one octet 01..ff at every position followed by zeros or mix, 4 states, "
           "4 start offsets (octets) / 2 (words); "
           "lengths 2^k+{-1,0,1,5} for k=16..20 (octets and words) with 4 cuts; 2^20+5 octets / 2^19+2 words continued in "
-          "chunks of 21 sizes; single calls over 2^31,2^32+{-1,0,1,5} and 2^33,2^34+{0,5} octets and 2^30,2^31,2^32+{0,5} words"
+          "chunks of 21 sizes; single calls over 2^31,2^32+{-1,0,1,5} and 2^33,2^34,2^35+{0,5} octets and 2^30,2^31,2^32+{0,5} words"
         : "all 2^24 (state,octet) steps; all 2^16 two-octet buffers and words from 6 states; "
           "13 structured 4 KiB buffers and 247 single-octet-then-zeros buffers of 256 octets x 3 initial values cut at every position; "
           "exact blocks of lengths 0..64,255..257,4095..4097; word buffers of lengths 0..64 cut at every position; "
